@@ -1119,7 +1119,7 @@ func init() {
 			"Oracle: stdout, result, error identical to the baseline unless the run ended in 'maximum value stack size exceeded' / 'call stack overflow' with that limit explicitly lowered. Divergent programs are shrunk (knobs / G-prog minimiser). distinct = (class, knobs) or G-prog shape",
 		NumCases: func(tier string) int {
 			if tier == "thorough" {
-				return 8000
+				return 1200
 			}
 			return 240
 		},
